@@ -99,6 +99,311 @@ Proof.
   split; [exact I|]. intros ? ? ? ? ? H. injection H as _ _ _ _ <-. lia.
 Qed.
 
+
+(* ---- EVPN, RTC, SR policy, flowspec: no panic, and a decoded NLRI takes at least one byte *)
+Lemma evpn_route_spec rt rl c :
+  nopanic (evpn_route rt rl c) /\ forall d c', evpn_route rt rl c = Ok (d, c') -> len c' <= len c.
+Proof.
+  unfold evpn_route.
+  destruct (N.eq_dec rt 1) as [->|N1].
+  { destruct (negb (rl =? 25)); [split; [exact I|discriminate]|].
+    destruct (take 25 c) as [[d c1]|] eqn:Et; cbn [rm req bind]; [|split; [exact I|discriminate]].
+    apply take_some in Et. destruct (rd_ok d); split; try exact I; try discriminate.
+    intros ? ? H. injection H as _ <-. lia. }
+  destruct (N.eq_dec rt 2) as [->|N2].
+  { destruct (rl <? 33); [split; [exact I|discriminate]|].
+    destruct (take 22 c) as [[h c1]|] eqn:E1; cbn [rm req bind]; [|split; [exact I|discriminate]]. apply take_some in E1.
+    destruct (negb (rd_ok h)); [split; [exact I|discriminate]|].
+    destruct (get8 c1) as [[ml c2]|] eqn:E2; cbn [rm req bind]; [|split; [exact I|discriminate]]. apply get8_some in E2.
+    destruct (negb (ml =? 48)); [split; [exact I|discriminate]|].
+    destruct (take 6 c2) as [[mac c3]|] eqn:E3; cbn [rm req bind]; [|split; [exact I|discriminate]]. apply take_some in E3.
+    destruct (get8 c3) as [[il c4]|] eqn:E4; cbn [rm req bind]; [|split; [exact I|discriminate]]. apply get8_some in E4.
+    destruct (evpn_ip_octets true il) as [ipb|]; [|split; [exact I|discriminate]].
+    destruct (take ipb c4) as [[ip c5]|] eqn:E5; cbn [rm req bind]; [|split; [exact I|discriminate]]. apply take_some in E5.
+    destruct (take 3 c5) as [[l1 c6]|] eqn:E6; cbn [rm req bind]; [|split; [exact I|discriminate]]. apply take_some in E6.
+    destruct (rl =? _).
+    - destruct (take 3 c6) as [[l2 c7]|] eqn:E7; cbn [rm req bind]; [|split; [exact I|discriminate]]. apply take_some in E7.
+      split; [exact I|]. intros ? ? H. injection H as _ <-. lia.
+    - split; [exact I|]. intros ? ? H. injection H as _ <-. lia. }
+  assert (H34 : forall hn allow, nopanic (
+      '(h, c) <- rm (take hn c) ;;
+      if negb (rd_ok h) then Fail MAL else
+      '(il, c) <- rm (get8 c) ;;
+      match evpn_ip_octets allow il with
+      | None => Fail MAL
+      | Some ipb => '(ip, c) <- rm (take ipb c) ;; Ok (h ++ [il] ++ ip, c)
+      end) /\ forall d c', (
+      '(h, c) <- rm (take hn c) ;;
+      if negb (rd_ok h) then Fail MAL else
+      '(il, c) <- rm (get8 c) ;;
+      match evpn_ip_octets allow il with
+      | None => Fail MAL
+      | Some ipb => '(ip, c) <- rm (take ipb c) ;; Ok (h ++ [il] ++ ip, c)
+      end) = Ok (d, c') -> len c' <= len c).
+  { intros hn allow.
+    destruct (take hn c) as [[h c1]|] eqn:E1; cbn [rm req bind]; [|split; [exact I|discriminate]]. apply take_some in E1.
+    destruct (negb (rd_ok h)); [split; [exact I|discriminate]|].
+    destruct (get8 c1) as [[il c2]|] eqn:E2; cbn [rm req bind]; [|split; [exact I|discriminate]]. apply get8_some in E2.
+    destruct (evpn_ip_octets allow il) as [ipb|]; [|split; [exact I|discriminate]].
+    destruct (take ipb c2) as [[ip c3]|] eqn:E3; cbn [rm req bind]; [|split; [exact I|discriminate]]. apply take_some in E3.
+    split; [exact I|]. intros ? ? H. injection H as _ <-. lia. }
+  destruct (N.eq_dec rt 3) as [->|N3]; [destruct (rl <? 17); [split; [exact I|discriminate]|apply H34]|].
+  destruct (N.eq_dec rt 4) as [->|N4]; [destruct (rl <? 23); [split; [exact I|discriminate]|apply H34]|].
+  destruct (N.eq_dec rt 5) as [->|N5].
+  { destruct (_ || _) eqn:Erl; [|split; [exact I|discriminate]].
+    destruct (take (nat_of rl) c) as [[d c1]|] eqn:Et; cbn [rm req bind]; [|split; [exact I|discriminate]].
+    apply take_some in Et. destruct Et as (L1 & Ld & _ & _).
+    destruct (nth_error d 22) as [pl|] eqn:En.
+    - destruct (_ && _); split; try exact I; try discriminate. intros ? ? H. injection H as _ <-. lia.
+    - exfalso. apply nth_error_None in En. unfold nat_of in Ld. lia. }
+  destruct rt as [|q]; [split; [exact I|discriminate]|].
+  do 3 (destruct q as [q|q|]; try (split; [exact I|discriminate]); try congruence).
+Qed.
+
+Lemma evpn_decode_spec c :
+  nopanic (evpn_decode c) /\ forall e c', evpn_decode c = Ok (e, c') -> len c' < len c.
+Proof.
+  unfold evpn_decode.
+  destruct (get8 c) as [[rt c1]|] eqn:E1; cbn [rm req bind]; [|split; [exact I|discriminate]]. apply get8_some in E1.
+  destruct (get8 c1) as [[rl c2]|] eqn:E2; cbn [rm req bind]; [|split; [exact I|discriminate]]. apply get8_some in E2.
+  destruct (evpn_route_spec rt rl c2) as [Np Hr].
+  destruct (evpn_route rt rl c2) as [[d c3]| |]; cbn [bind]; [|split; [exact I|discriminate]|destruct Np].
+  specialize (Hr _ _ eq_refl). split; [exact I|]. intros ? ? H. injection H as _ <-. lia.
+Qed.
+
+Lemma rtc_decode_spec c :
+  nopanic (rtc_decode c) /\ forall e c', rtc_decode c = Ok (e, c') -> len c' < len c.
+Proof.
+  unfold rtc_decode.
+  destruct (get8 c) as [[b c1]|] eqn:E1; cbn [rm req bind]; [|split; [exact I|discriminate]]. apply get8_some in E1.
+  destruct (b =? 0). { split; [exact I|]. intros ? ? H. injection H as _ <-. lia. }
+  destruct (b =? 32).
+  { destruct (take 4 c1) as [[d c2]|] eqn:Et; cbn [rm req bind]; [|split; [exact I|discriminate]]. apply take_some in Et.
+    split; [exact I|]. intros ? ? H. injection H as _ <-. lia. }
+  destruct (b =? 96); [|split; [exact I|discriminate]].
+  destruct (take 12 c1) as [[d c2]|] eqn:Et; cbn [rm req bind]; [|split; [exact I|discriminate]]. apply take_some in Et.
+  split; [exact I|]. intros ? ? H. injection H as _ <-. lia.
+Qed.
+
+Lemma srp_decode_spec c :
+  nopanic (srp_decode c) /\ forall e c', srp_decode c = Ok (e, c') -> len c' < len c.
+Proof.
+  unfold srp_decode.
+  destruct (get8 c) as [[b c1]|] eqn:E1; cbn [rm req bind]; [|split; [exact I|discriminate]]. apply get8_some in E1.
+  destruct (take 8 c1) as [[dc c2]|] eqn:E2; cbn [rm req bind]; [|split; [exact I|discriminate]]. apply take_some in E2.
+  destruct (b =? 96).
+  { destruct (take 4 c2) as [[d c3]|] eqn:Et; cbn [rm req bind]; [|split; [exact I|discriminate]]. apply take_some in Et.
+    split; [exact I|]. intros ? ? H. injection H as _ <-. lia. }
+  destruct (b =? 192); [|split; [exact I|discriminate]].
+  destruct (take 16 c2) as [[d c3]|] eqn:Et; cbn [rm req bind]; [|split; [exact I|discriminate]]. apply take_some in Et.
+  split; [exact I|]. intros ? ? H. injection H as _ <-. lia.
+Qed.
+
+
+
+(* ---- BGP-LS *)
+Lemma ls_first_ok tag n v : (n <= length v)%nat -> ls_first tag n v = Ok (firstn n v).
+Proof. intro H. unfold ls_first. destruct (Nat.ltb (length v) n) eqn:E; [apply PeanoNat.Nat.ltb_lt in E; lia|reflexivity]. Qed.
+
+Lemma ls_node_fold_nopanic : forall tl nd, nopanic (ls_node_fold tl nd).
+Proof.
+  induction tl as [|[t v] r IH]; intro nd; cbn [ls_node_fold]; [exact I|].
+  destruct (Nat.ltb (length v) 4) eqn:E; cbn [negb].
+  - rewrite !andb_false_r. destruct (t =? 515); apply IH.
+  - apply PeanoNat.Nat.ltb_ge in E. rewrite !andb_true_r, (ls_first_ok 60 4 v E). cbn [bind].
+    repeat match goal with |- nopanic (if ?b then _ else _) => destruct b end; apply IH.
+Qed.
+
+Lemma ls_link_tlvs_nopanic : forall tl, nopanic (ls_link_tlvs tl).
+Proof.
+  induction tl as [|[t v] r IH]; cbn [ls_link_tlvs]; [exact I|].
+  apply np_bind; [|intros x _; apply np_bind; [exact IH|intros; exact I]].
+  destruct ((t =? 258) && negb (Nat.ltb (length v) 8)) eqn:E1.
+  { apply andb_true_iff in E1. destruct E1 as [_ E1]. apply negb_true_iff, PeanoNat.Nat.ltb_ge in E1.
+    rewrite (ls_first_ok 61 4 v) by lia. cbn [bind]. rewrite (ls_first_ok 61 4 (skipn 4 v)) by (rewrite skipn_length; lia). exact I. }
+  destruct (((t =? 259) || (t =? 260)) && negb (Nat.ltb (length v) 4)) eqn:E2.
+  { apply andb_true_iff in E2. destruct E2 as [_ E2]. apply negb_true_iff, PeanoNat.Nat.ltb_ge in E2.
+    rewrite (ls_first_ok 62 4 v) by lia. exact I. }
+  destruct (((t =? 261) || (t =? 262)) && negb (Nat.ltb (length v) 16)) eqn:E3.
+  { apply andb_true_iff in E3. destruct E3 as [_ E3]. apply negb_true_iff, PeanoNat.Nat.ltb_ge in E3.
+    rewrite (ls_first_ok 63 16 v) by lia. exact I. }
+  destruct (t =? 263); exact I.
+Qed.
+
+Lemma ls_prefix_tlvs_nopanic : forall tl, nopanic (ls_prefix_tlvs tl).
+Proof.
+  induction tl as [|[t v] r IH]; cbn [ls_prefix_tlvs]; [exact I|].
+  apply np_bind; [|intros x _; apply np_bind; [exact IH|intros; exact I]].
+  destruct (t =? 263); [exact I|]. destruct v as [|v0 vr]; [exact I|].
+  destruct (t =? 264); [exact I|]. destruct (t =? 265); [|exact I].
+  destruct (Nat.ltb (nat_of (ceil8 v0)) (length (v0 :: vr))) eqn:E; [|exact I].
+  apply PeanoNat.Nat.ltb_lt in E. cbn [length] in E.
+  destruct (Nat.ltb (length vr) (nat_of (ceil8 v0))) eqn:E2; [apply PeanoNat.Nat.ltb_lt in E2; lia|exact I].
+Qed.
+
+Lemma ls_srv6_tlvs_nopanic : forall tl sids mts, nopanic (ls_srv6_tlvs tl sids mts).
+Proof.
+  induction tl as [|[t v] r IH]; intros sids mts; cbn [ls_srv6_tlvs]; [exact I|].
+  destruct ((t =? 518) && negb (Nat.ltb (length v) 20)) eqn:E1.
+  { apply andb_true_iff in E1. destruct E1 as [_ E1]. apply negb_true_iff, PeanoNat.Nat.ltb_ge in E1.
+    rewrite (ls_first_ok 65 2 v) by lia. cbn [bind].
+    rewrite (ls_first_ok 65 16 (skipn 4 v)) by (rewrite skipn_length; lia). cbn [bind]. apply IH. }
+  destruct (t =? 263); apply IH.
+Qed.
+
+Lemma ls_node_and_rest_nopanic d : nopanic (ls_node_and_rest d).
+Proof.
+  unfold ls_node_and_rest. destruct (ls_read_tlv d) as [[[t v] rest]|]; [|exact I].
+  destruct (negb _); [exact I|]. apply np_bind; [apply ls_node_fold_nopanic|intros; exact I].
+Qed.
+
+Lemma ls_decode_spec c :
+  nopanic (ls_decode c) /\ forall x c', ls_decode c = Ok (x, c') -> len c' < len c.
+Proof.
+  unfold ls_decode.
+  destruct (get16 c) as [[ty c1]|] eqn:E1; cbn [rm req bind]; [|split; [exact I|discriminate]]. apply get16_some in E1.
+  destruct (get16 c1) as [[ln c2]|] eqn:E2; cbn [rm req bind]; [|split; [exact I|discriminate]]. apply get16_some in E2.
+  destruct (take (nat_of ln) c2) as [[body c3]|] eqn:E3; cbn [rm req bind]; [|split; [exact I|discriminate]].
+  apply take_some in E3. destruct E3 as (L3 & _ & _ & _).
+  assert (Hc : len c3 < len c) by lia.
+  destruct (Nat.ltb (length body) 9) eqn:E9.
+  { split; [exact I|]. intros ? ? H. injection H as _ <-. exact Hc. }
+  apply PeanoNat.Nat.ltb_ge in E9.
+  destruct body as [|p b]; [cbn [length] in E9; lia|]. cbn [length] in E9.
+  rewrite (ls_first_ok 66 8 b) by lia. cbn [bind].
+  assert (Hfin : forall A (r : res A) (k : A -> lsnlri), nopanic r ->
+            nopanic (bind r (fun a => Ok (k a, c3))) /\
+            forall x c', bind r (fun a => Ok (k a, c3)) = Ok (x, c') -> len c' < len c).
+  { intros A r k Hr. destruct r as [a| |]; cbn [bind]; [|split; [exact I|discriminate]|destruct Hr].
+    split; [exact I|]. intros ? ? H. injection H as _ <-. exact Hc. }
+  destruct (ty =? 1).
+  { pose proof (ls_node_and_rest_nopanic (skipn 8 b)) as Hn.
+    destruct (ls_node_and_rest (skipn 8 b)) as [[nd r1]| |]; cbn [bind]; [|split; [exact I|discriminate]|destruct Hn].
+    split; [exact I|]. intros ? ? H. injection H as _ <-. exact Hc. }
+  destruct (ty =? 2).
+  { pose proof (ls_node_and_rest_nopanic (skipn 8 b)) as Hn.
+    destruct (ls_node_and_rest (skipn 8 b)) as [[l r1]| |]; cbn [bind]; [|split; [exact I|discriminate]|destruct Hn].
+    pose proof (ls_node_and_rest_nopanic r1) as Hn2.
+    destruct (ls_node_and_rest r1) as [[r r2]| |]; cbn [bind]; [|split; [exact I|discriminate]|destruct Hn2].
+    apply (Hfin _ _ (fun tl => LsLink p (be_of (firstn 8 b)) l r tl)). apply ls_link_tlvs_nopanic. }
+  destruct (_ || _).
+  { pose proof (ls_node_and_rest_nopanic (skipn 8 b)) as Hn.
+    destruct (ls_node_and_rest (skipn 8 b)) as [[nd r1]| |]; cbn [bind]; [|split; [exact I|discriminate]|destruct Hn].
+    apply (Hfin _ _ (fun tl => LsPrefix (ty =? 4) p (be_of (firstn 8 b)) nd tl)). apply ls_prefix_tlvs_nopanic. }
+  destruct (ty =? 6).
+  { pose proof (ls_node_and_rest_nopanic (skipn 8 b)) as Hn.
+    destruct (ls_node_and_rest (skipn 8 b)) as [[nd r1]| |]; cbn [bind]; [|split; [exact I|discriminate]|destruct Hn].
+    pose proof (ls_srv6_tlvs_nopanic (ls_tlvs (S (length r1)) r1) [] []) as Hs.
+    destruct (ls_srv6_tlvs _ [] []) as [[sids mts]| |]; cbn [bind]; [|split; [exact I|discriminate]|destruct Hs].
+    split; [exact I|]. intros ? ? H. injection H as _ <-. exact Hc. }
+  split; [exact I|]. intros ? ? H. injection H as _ <-. exact Hc.
+Qed.
+
+Lemma mup_decode_spec fam c n :
+  nopanic (mup_decode fam c n) /\ forall e c', mup_decode fam c n = Ok (e, c') -> len c' < len c.
+Proof.
+  unfold mup_decode.
+  destruct (n <? 4); [split; [exact I|discriminate]|].
+  destruct (take 4 c) as [[h c1]|] eqn:E1; cbn [rm req bind]; [|split; [exact I|discriminate]].
+  apply take_some in E1. destruct E1 as (L1 & Lh & _ & _).
+  destruct h as [|arch [|t1 [|t2 [|blen [|x h]]]]]; try (cbn [length] in Lh; lia).
+  destruct (_ || _); [split; [exact I|discriminate]|].
+  destruct (take (nat_of blen) c1) as [[body c2]|] eqn:E2; cbn [rm req bind]; [|split; [exact I|discriminate]].
+  apply take_some in E2.
+  destruct (mup_body _ _ body); split; try exact I; try discriminate.
+  intros ? ? H. injection H as _ <-. lia.
+Qed.
+
+Lemma fs_op_spec c :
+  nopanic (fs_op c) /\ forall b v c', fs_op c = Ok (b, v, c') -> len c' + 2 <= len c.
+Proof.
+  unfold fs_op.
+  destruct (get8 c) as [[raw c1]|] eqn:E1; cbn [rm req bind]; [|split; [exact I|discriminate]]. apply get8_some in E1.
+  destruct (take _ c1) as [[v c2]|] eqn:E2; cbn [rm req bind]; [|split; [exact I|discriminate]]. apply take_some in E2.
+  split; [exact I|]. intros ? ? ? H. injection H as _ _ <-.
+  repeat match type of E2 with context [if ?b then _ else _] => destruct b end; lia.
+Qed.
+
+Lemma fs_ops_spec : forall fuel c acc, (length c < fuel)%nat ->
+  nopanic (fs_ops fuel c acc) /\ forall l c', fs_ops fuel c acc = Ok (l, c') -> len c' + 2 <= len c.
+Proof.
+  induction fuel as [|f IH]; intros c acc Hf; [lia|]. cbn [fs_ops].
+  destruct (fs_op_spec c) as [Np Hr].
+  destruct (fs_op c) as [[[b v] c1]| |]; cbn [bind]; [|split; [exact I|discriminate]|destruct Np].
+  specialize (Hr _ _ _ eq_refl).
+  destruct (N.testbit b 7).
+  - split; [exact I|]. intros ? ? H. injection H as _ <-. exact Hr.
+  - destruct (IH c1 ((b, v) :: acc)) as [Np2 Hr2].
+    { pose proof (len_length c). pose proof (len_length c1). lia. }
+    split; [exact Np2|]. intros l c' H. specialize (Hr2 _ _ H). lia.
+Qed.
+
+Lemma fs_component_spec v6 c :
+  nopanic (fs_component v6 c) /\ forall x c', fs_component v6 c = Ok (x, c') -> len c' < len c.
+Proof.
+  unfold fs_component.
+  destruct (get8 c) as [[ty c1]|] eqn:E1; cbn [rm req bind]; [|split; [exact I|discriminate]]. apply get8_some in E1.
+  destruct (_ || _).
+  - destruct (get8 c1) as [[bits c2]|] eqn:E2; cbn [rm req bind]; [|split; [exact I|discriminate]]. apply get8_some in E2.
+    destruct (_ <? bits); [split; [exact I|discriminate]|].
+    destruct v6.
+    + destruct (get8 c2) as [[off c3]|] eqn:E3; cbn [rm req bind]; [|split; [exact I|discriminate]]. apply get8_some in E3.
+      destruct (take _ c3) as [[a c4]|] eqn:E4; cbn [rm req bind]; [|split; [exact I|discriminate]]. apply take_some in E4.
+      split; [exact I|]. intros ? ? H. injection H as _ <-. lia.
+    + destruct (take _ c2) as [[a c4]|] eqn:E4; cbn [rm req bind]; [|split; [exact I|discriminate]]. apply take_some in E4.
+      split; [exact I|]. intros ? ? H. injection H as _ <-. lia.
+  - destruct (_ && _); [|split; [exact I|discriminate]].
+    destruct (fs_ops_spec (S (length c1)) c1 [] ltac:(lia)) as [Np Hr].
+    destruct (fs_ops _ c1 []) as [[ops c2]| |]; cbn [bind]; [|split; [exact I|discriminate]|destruct Np].
+    specialize (Hr _ _ eq_refl). split; [exact I|]. intros ? ? H. injection H as _ <-. lia.
+Qed.
+
+Lemma fs_components_nopanic : forall fuel v6 c acc, (length c < fuel)%nat -> nopanic (fs_components fuel v6 c acc).
+Proof.
+  induction fuel as [|f IH]; intros v6 c acc Hf; [lia|].
+  destruct c as [|b r]; [exact I|]. cbn [fs_components].
+  destruct (fs_component_spec v6 (b :: r)) as [Np Hr].
+  destruct (fs_component v6 (b :: r)) as [[x c1]| |]; cbn [bind]; [|exact I|destruct Np].
+  specialize (Hr _ _ eq_refl). apply IH.
+  pose proof (len_length c1). pose proof (len_length (b :: r)). lia.
+Qed.
+
+Lemma fs_decode_spec vpn v6 c n :
+  nopanic (fs_decode vpn v6 c n) /\ forall rd comps c', fs_decode vpn v6 c n = Ok (rd, comps, c') -> len c' < len c.
+Proof.
+  unfold fs_decode.
+  destruct (n <? 1); [split; [exact I|discriminate]|].
+  destruct (get8 c) as [[first c1]|] eqn:E1; cbn [rm req bind]; [|split; [exact I|discriminate]]. apply get8_some in E1.
+  assert (Hh : nopanic (if first <? 240 then Ok (first, 1, c1)
+                        else '(second, c) <- rm (get8 c1) ;; Ok ((first mod 16) * 256 + second, 2, c)) /\
+               forall nlen hdr c2, (if first <? 240 then Ok (first, 1, c1)
+                        else '(second, c) <- rm (get8 c1) ;; Ok ((first mod 16) * 256 + second, 2, c)) = Ok (nlen, hdr, c2) ->
+               len c2 <= len c1).
+  { destruct (first <? 240).
+    - split; [exact I|]. intros ? ? ? H. injection H as _ _ <-. lia.
+    - destruct (get8 c1) as [[second c2]|] eqn:E2; cbn [rm req bind]; [|split; [exact I|discriminate]]. apply get8_some in E2.
+      split; [exact I|]. intros ? ? ? H. injection H as _ _ <-. lia. }
+  destruct Hh as [Nph Hh].
+  destruct (if first <? 240 then _ else _) as [[[nlen hdr] c2]| |]; cbn [bind]; [|split; [exact I|discriminate]|destruct Nph].
+  specialize (Hh _ _ _ eq_refl).
+  destruct ((n <? nlen + hdr) || (vpn && (nlen <? 8))) eqn:Ec; [split; [exact I|discriminate]|].
+  destruct (take (nat_of nlen) c2) as [[buf c3]|] eqn:Et; cbn [rm req bind]; [|split; [exact I|discriminate]].
+  apply take_some in Et. destruct Et as (L3 & Lb & Hb & _).
+  destruct vpn.
+  - destruct (Nat.ltb (length (firstn 8 buf)) 8) eqn:El.
+    { exfalso. apply PeanoNat.Nat.ltb_lt in El. rewrite firstn_length in El. apply orb_false_iff in Ec.
+      destruct Ec as [_ Ec]. cbn [andb] in Ec. unfold nat_of in *. lia. }
+    destruct (negb (rd_ok _)); [split; [exact I|discriminate]|].
+    assert (Npc : nopanic (fs_components (S (length buf)) v6 (skipn 8 buf) []))
+      by (apply fs_components_nopanic; rewrite skipn_length; lia).
+    destruct (fs_components _ v6 (skipn 8 buf) []) as [comps| |]; cbn [bind];
+      [|split; [exact I|discriminate]|destruct Npc].
+    split; [exact I|]. intros ? ? ? H. injection H as _ _ <-. lia.
+  - pose proof (fs_components_nopanic (S (length buf)) v6 buf [] ltac:(lia)) as Npc.
+    destruct (fs_components _ v6 buf []) as [comps| |]; cbn [bind]; [|split; [exact I|discriminate]|destruct Npc].
+    split; [exact I|]. intros ? ? ? H. injection H as _ _ <-. lia.
+Qed.
+
 Section NlriFacts.
   Variable other_nlri : N -> bool -> list N -> option (list N).
   (* contract of the decoders that are not modelled: a decoded NLRI takes at
@@ -133,6 +438,35 @@ Section NlriFacts.
     destruct (fam =? F_IPV6_MPLS).
     { destruct (labeled_decode_spec 128 16%nat is_reach c n) as [Np Hr].
       destruct (labeled_decode 128 16 is_reach c n) as [[[[ls m] a] c1]| |]; cbn [bind]; [|split; [exact I|discriminate]|destruct Np].
+      split; [exact I|]. intros ? ? H. injection H as _ <-. eapply Hr; reflexivity. }
+    destruct (fam =? F_EVPN).
+    { destruct (evpn_decode_spec c) as [Np Hr].
+      destruct (evpn_decode c) as [[e c1]| |]; cbn [bind]; [|split; [exact I|discriminate]|destruct Np].
+      split; [exact I|]. intros ? ? H. injection H as _ <-. eapply Hr; reflexivity. }
+    destruct (fam =? F_RTC).
+    { destruct (rtc_decode_spec c) as [Np Hr].
+      destruct (rtc_decode c) as [[e c1]| |]; cbn [bind]; [|split; [exact I|discriminate]|destruct Np].
+      split; [exact I|]. intros ? ? H. injection H as _ <-. eapply Hr; reflexivity. }
+    destruct (_ || _).
+    { destruct (srp_decode_spec c) as [Np Hr].
+      destruct (srp_decode c) as [[e c1]| |]; cbn [bind]; [|split; [exact I|discriminate]|destruct Np].
+      split; [exact I|]. intros ? ? H. injection H as _ <-. eapply Hr; reflexivity. }
+    assert (Hfs : forall vpn v6 k, nopanic ('(rd, comps, c) <- fs_decode vpn v6 c n ;; Ok (NFlow k rd comps, c)) /\
+              forall x c', ('(rd, comps, c) <- fs_decode vpn v6 c n ;; Ok (NFlow k rd comps, c)) = Ok (x, c') -> len c' < len c).
+    { intros vpn v6 k. destruct (fs_decode_spec vpn v6 c n) as [Np Hr].
+      destruct (fs_decode vpn v6 c n) as [[[rd comps] c1]| |]; cbn [bind]; [|split; [exact I|discriminate]|destruct Np].
+      split; [exact I|]. intros ? ? H. injection H as _ <-. eapply Hr; reflexivity. }
+    destruct (fam =? F_IPV4_FS); [apply Hfs|].
+    destruct (fam =? F_IPV6_FS); [apply Hfs|].
+    destruct (fam =? F_IPV4_FSVPN); [apply Hfs|].
+    destruct (fam =? F_IPV6_FSVPN); [apply Hfs|].
+    destruct (fam =? F_LS).
+    { destruct (ls_decode_spec c) as [Np Hr].
+      destruct (ls_decode c) as [[x c1]| |]; cbn [bind]; [|split; [exact I|discriminate]|destruct Np].
+      split; [exact I|]. intros ? ? H. injection H as _ <-. eapply Hr; reflexivity. }
+    destruct (_ || _).
+    { destruct (mup_decode_spec fam c n) as [Np Hr].
+      destruct (mup_decode fam c n) as [[e c1]| |]; cbn [bind]; [|split; [exact I|discriminate]|destruct Np].
       split; [exact I|]. intros ? ? H. injection H as _ <-. eapply Hr; reflexivity. }
     destruct (is_other_family fam); [|split; [exact I|discriminate]].
     destruct (other_nlri fam is_reach c) as [c1|] eqn:Eo; [|split; [exact I|discriminate]].
